@@ -7,6 +7,7 @@ package main
 //	cp <C|CI|P|PI> <ints>: f ; f ; …            Compose / ComposeInterface / Pipe / PipeInterface
 //	cg <C|P> <k> <ints>: f ; f ; …              regrouped at k: X(X(fs[:k]...), X(fs[k:]...))
 //	ru <steps> <ints>: f ; f ; …                ONE slice fs reused by the steps C P I J g<k> h<k> x (comma separated)
+//	rr <steps> <ints A> <ints B>: f ; f ; …     every built function: run on A, keep the result, run on B, re-read result A, …
 //	ad <adapter> <bound ints>: <ints>           one adapter call
 //	tr <kd> <ke> <mode>: <ints>                 Trampoline with the step family
 //	cu <G|I> <n>: c:<ints> ; d ; r ; i ; …      CurryDef script (Call / MarkDone / Result / IsDone)
@@ -27,6 +28,7 @@ import (
 	"math"
 	"reflect"
 	"runtime"
+	"sort"
 	"strconv"
 	"strings"
 	"sync"
@@ -104,6 +106,29 @@ func c20Sum(s []int) int {
 
 func c20Fn(tok string) func(...int) []int {
 	switch {
+	// pass-through stages: they hand back the very slice they were given (sorted in place) or a view of it
+	case tok == "id":
+		return func(s ...int) []int { return s }
+	case tok == "so":
+		return func(s ...int) []int { sort.Ints(s); return s }
+	case tok == "sd":
+		return func(s ...int) []int { sort.Sort(sort.Reverse(sort.IntSlice(s))); return s }
+	case strings.HasPrefix(tok, "tk"):
+		k := c20Atoi(tok[2:], 0)
+		return func(s ...int) []int {
+			if k > len(s) {
+				return s
+			}
+			return s[:k]
+		}
+	case strings.HasPrefix(tok, "dk"):
+		k := c20Atoi(tok[2:], 0)
+		return func(s ...int) []int {
+			if k > len(s) {
+				return s[len(s):]
+			}
+			return s[k:]
+		}
 	case tok == "r":
 		return func(s ...int) []int {
 			out := make([]int, len(s))
@@ -176,6 +201,143 @@ func c20Box(f func(...int) []int) func(...interface{}) []interface{} {
 		}
 		return res
 	}
+}
+
+// c20FnBoxed: the interface{} twin of c20Fn; the pass-through stages work on the []interface{} they are given
+func c20FnBoxed(tok string) func(...interface{}) []interface{} {
+	less := func(s []interface{}, desc bool) func(i, j int) bool {
+		return func(i, j int) bool {
+			if desc {
+				return s[i].(int) > s[j].(int)
+			}
+			return s[i].(int) < s[j].(int)
+		}
+	}
+	switch {
+	case tok == "id":
+		return func(s ...interface{}) []interface{} { return s }
+	case tok == "so":
+		return func(s ...interface{}) []interface{} { sort.SliceStable(s, less(s, false)); return s }
+	case tok == "sd":
+		return func(s ...interface{}) []interface{} { sort.SliceStable(s, less(s, true)); return s }
+	case strings.HasPrefix(tok, "tk"):
+		k := c20Atoi(tok[2:], 0)
+		return func(s ...interface{}) []interface{} {
+			if k > len(s) {
+				return s
+			}
+			return s[:k]
+		}
+	case strings.HasPrefix(tok, "dk"):
+		k := c20Atoi(tok[2:], 0)
+		return func(s ...interface{}) []interface{} {
+			if k > len(s) {
+				return s[len(s):]
+			}
+			return s[k:]
+		}
+	}
+	return c20Box(c20Fn(tok))
+}
+
+// c20RunRR: every built function (steps as in `ru`) is invoked on a fresh copy of input A, the RESULT SLICE is kept,
+// then on a fresh copy of B; result A is read again, the function is invoked a third time (on A) and result B is read
+// again.  The stages may hand back the slice they were given, so a composed function that recycles an internal
+// argument/result buffer between invocations rewrites the kept results.
+func c20RunRR(script string, inA, inB []int, toks []string) string {
+	fs := make([]func(...int) []int, len(toks))
+	bs := make([]func(...interface{}) []interface{}, len(toks))
+	for i, t := range toks {
+		fs[i] = c20Fn(t)
+		bs[i] = c20FnBoxed(t)
+	}
+	type inv struct {
+		run  func(in []int) // invokes and keeps the result slice
+		read func() string  // renders the kept result slice as it is now
+	}
+	mkInt := func(f func(...int) []int) func() inv {
+		return func() inv {
+			var kept []int
+			panicked := false
+			return inv{run: func(in []int) {
+				defer func() {
+					if r := recover(); r != nil {
+						panicked = true
+					}
+				}()
+				kept = f(append([]int{}, in...)...)
+			}, read: func() string {
+				if panicked {
+					return "panic"
+				}
+				return "ok " + c20ShowInts(kept)
+			}}
+		}
+	}
+	mkBoxed := func(f func(...interface{}) []interface{}) func() inv {
+		return func() inv {
+			var kept []interface{}
+			panicked := false
+			return inv{run: func(in []int) {
+				defer func() {
+					if r := recover(); r != nil {
+						panicked = true
+					}
+				}()
+				arg := make([]interface{}, len(in))
+				for i, v := range in {
+					arg[i] = v
+				}
+				kept = f(arg...)
+			}, read: func() string {
+				if panicked {
+					return "panic"
+				}
+				out := make([]int, len(kept))
+				for i, v := range kept {
+					out[i], _ = v.(int)
+				}
+				return "ok " + c20ShowInts(out)
+			}}
+		}
+	}
+	var outs []string
+	for _, tok := range strings.Split(script, ",") {
+		var mk func() inv
+		switch {
+		case tok == "C":
+			mk = mkInt(fpgo.Compose(fs...))
+		case tok == "P":
+			mk = mkInt(fpgo.Pipe(fs...))
+		case tok == "I":
+			mk = mkBoxed(fpgo.ComposeInterface(bs...))
+		case tok == "J":
+			mk = mkBoxed(fpgo.PipeInterface(bs...))
+		case strings.HasPrefix(tok, "g"), strings.HasPrefix(tok, "h"):
+			k := c20Atoi(tok[1:], 0)
+			comb := fpgo.Compose[int]
+			if tok[0] == 'h' {
+				comb = fpgo.Pipe[int]
+			}
+			if 0 < k && k < len(fs) {
+				mk = mkInt(comb(comb(fs[:k]...), comb(fs[k:]...)))
+			} else {
+				mk = mkInt(comb(fs...))
+			}
+		default:
+			continue
+		}
+		first, second, third := mk(), mk(), mk()
+		first.run(inA)
+		ra := first.read()
+		second.run(inB)
+		rb := second.read()
+		ra2 := first.read() // result A after the invocation on B
+		third.run(inA)
+		rb2 := second.read() // result B after a third invocation
+		outs = append(outs, strings.Join([]string{ra, rb, ra2, rb2}, " > "))
+	}
+	return strings.Join(outs, " | ")
 }
 
 func c20BoxAll(fs []func(...int) []int) []func(...interface{}) []interface{} {
@@ -1292,6 +1454,8 @@ func c20Run(line string) string {
 		return c20RunCG(head[1], c20Atoi(head[2], 0), c20ParseInts(head[3]), fns())
 	case head[0] == "ru" && len(head) == 3:
 		return c20RunRU(head[1], c20ParseInts(head[2]), fns())
+	case head[0] == "rr" && len(head) == 4:
+		return c20RunRR(head[1], c20ParseInts(head[2]), c20ParseInts(head[3]), c20Toks(body))
 	case head[0] == "ad" && len(head) == 3:
 		return c20RunAdapter(head[1], c20ParseInts(head[2]), c20ParseInts(body))
 	case head[0] == "tr" && len(head) == 4:
